@@ -23,14 +23,16 @@ structure Ctx where
   n   : Nat
   cfg : Cfg
 
-def tab {α : Type} (n : Nat) (f : Node → α) (dflt : α) : Node → α :=
-  let a : Array α := Array.ofFn (n := n) (fun i => f i.val)
-  fun m => a.getD m dflt
-
 def normalize (x : Ctx) (s : State) : State :=
-  { s with phase := tab x.n s.phase .parked, ready := tab x.n s.ready false,
-           cancel := tab x.n s.cancel false, pend := tab x.n s.pend false,
-           snap := tab x.n s.snap .parked }
+  -- the arrays are built here (once per step); the closures below only index them
+  let ph : Array Phase := Array.ofFn (n := x.n) (fun i => s.phase i.val)
+  let rd : Array Bool := Array.ofFn (n := x.n) (fun i => s.ready i.val)
+  let cn : Array Bool := Array.ofFn (n := x.n) (fun i => s.cancel i.val)
+  let pd : Array Bool := Array.ofFn (n := x.n) (fun i => s.pend i.val)
+  let sn : Array Phase := Array.ofFn (n := x.n) (fun i => s.snap i.val)
+  { s with phase := fun m => ph.getD m .parked, ready := fun m => rd.getD m false,
+           cancel := fun m => cn.getD m false, pend := fun m => pd.getD m false,
+           snap := fun m => sn.getD m .parked }
 
 def apply (x : Ctx) (s : State) (e : Ev) : Option State :=
   (step x.cfg s e).map (normalize x)
